@@ -4,14 +4,21 @@
      EPresent k (replay_insert) | EFail k | ERemove k (replay_remove) | EPurge (replay_purge, reads the
      clock) | ETick d (clock += d, so the clock never goes back)
    over (table, clock); purge events may sit anywhere relative to a key's expiry second.
-   The decode-time check (t <= time0 + ttl', C06) and t_expired = time0 + ttl' from the capped ttl are
-   pipeline-level facts appended by the maintainer; here a key's last valid second is snd k = t_expired. *)
+   The decode-time check (t <= time0 + ttl', C06) and that m->ttl is already capped when replay_insert reads
+   it are pipeline-level facts appended by the maintainer; here a key's last valid second is snd k. *)
 From Coq Require Import List NArith Bool.
 From Coq.Strings Require Import Byte.
 From MV Require Import Bytes ReplayModel ReplayProofs.
 From MV.gen Require Import GenReplay.
 Import ListNotations.
 Local Open Scope N_scope.
+
+(* the expiry recorded with a key is exactly time0 + ttl (formed in time_t: no 32-bit wrap), ttl being the
+   value the caller left in m->ttl, i.e. already capped by dec_validate_time *)
+Theorem C07_key_expiry_exact : forall (mac : bytes) (time0 ttl : N),
+  snd (mk_key mac (t_expired_of time0 ttl)) = time0 + ttl.
+Proof. intros mac time0 ttl. exact (key_expiry_exact time0 ttl). Qed.
+Print Assumptions C07_key_expiry_exact.
 
 (* a purge at `now` keeps exactly the keys with now <= t_expired, in their order, and count goes down by
    the number returned (hash_delete_if's n) *)
